@@ -27,7 +27,10 @@ def harness(name, props, templates, what, mb=False, finding=None, w=2, timeout=9
     out.append("    #[kani::unwind(%d)]" % (n + 4))
     out.append("    fn %s() {" % name)
     for t in templates:
-        out.append("        check_template(%s, %s);" % (rs(t), "true" if mb else "false"))
+        shown = t.replace("{", "{{").replace("}", "}}").replace("\\", "\\\\").replace('"', "'")
+        out.append("        let r = run_template(%s, %s);" % (rs(t), "true" if mb else "false"))
+        out.append('        assert!(r.0, "template `%s`: expansion length equals the template specification");' % shown)
+        out.append('        assert!(r.1, "template `%s`: expansion content equals the template specification");' % shown)
     out.append("        kani::cover!(true, \"end of the harness is reachable (vacuity guard)\");")
     out.append("    }")
     out.append("")
